@@ -126,21 +126,30 @@ theorem windows_from_source :
     Gen.regionsWindows4.map (·.2) = [window4, window4, window4, window4] := by
   decide
 
-/-- the closeness test has the centre value as reference, `<=`, and the numpy default tolerances;
-    pass 1 treats a window cell as labelled iff its label is `> 0`; uids start at 1 -/
+/-- the closeness test has the centre value as reference, `<=`, and the numpy default tolerances; a NaN centre
+    cell is skipped in both passes (pass 1 copies it to the output); pass 1 treats a window cell as labelled
+    iff its label is `> 0`; uids start at 1.
+    The generated strings are *normal forms* (harness/facts_regions.py): local names are resolved to what they
+    evidently hold (`val` is `data[y, x]`, `rtol` / `atol` are their literals wherever they are defined),
+    the remaining locals carry role names, `a >= b` is written `b <= a`, operands of `+` and `*` are sorted. -/
 theorem closeness_from_source :
-    Gen.regionsIsClose = ["rtol=1e-05", "atol=1e-08", "np.abs(src_window - val) <= atol + rtol * np.abs(val)",
-                          "rtol=1e-05", "atol=1e-08", "np.abs(src_window - val) <= atol + rtol * np.abs(val)"] ∧
-    Gen.regionsLabelledTest = ["len(neighbor_matches) > 0", "area_val > 0"] ∧ Gen.regionsUid0 = "1" := by
+    Gen.regionsIsClose = ["abs(src_window - data[y, x]) <= 1e-05 * abs(data[y, x]) + 1e-08",
+                          "abs(src_window - data[y, x]) <= 1e-05 * abs(data[y, x]) + 1e-08"] ∧
+    Gen.regionsNanGuard = ["isnan(data[y, x]) -> out[y, x] = data[y, x]; continue",
+                           "isnan(data[y, x]) -> continue"] ∧
+    Gen.regionsLabelledTest = ["0 < len(matches)", "0 < area_window[matches[j]]"] ∧ Gen.regionsUid0 = "1" := by
   decide
 
 /-- shape, dims, coordinates and attributes of the result are those of the input: the wrapper only
-    validates `neighborhood`, runs the kernel on `raster.data`, and wraps its output -/
+    validates `neighborhood`, runs the kernel on `raster.data` (converted to int64 when its integer dtype
+    cannot count the cells, fix D24), and wraps the kernel's output (keywords in sorted order) -/
 theorem meta_preserved :
     Gen.regionsGuard = "neighborhood not in (4, 8)" ∧
-    Gen.regionsKernelData = "raster.data" ∧ Gen.regionsKernelArgs = "n=neighborhood" ∧
-    Gen.regionsReturn = [("data", "out"), ("name", "name"), ("dims", "raster.dims"),
-                         ("coords", "raster.coords"), ("attrs", "raster.attrs")] := by
+    Gen.regionsKernelData = "raster.data" ∧
+    Gen.regionsWiden = ["data.dtype.kind in 'iu' and np.iinfo(data.dtype).max < data.size -> data = data.astype(np.int64)"] ∧
+    Gen.regionsKernelArgs = "n=neighborhood" ∧
+    Gen.regionsReturn = [("data", "out"), ("attrs", "raster.attrs"), ("coords", "raster.coords"),
+                         ("dims", "raster.dims"), ("name", "name")] := by
   decide
 
 /-! ### non-vacuity -/
